@@ -658,7 +658,7 @@ fn run(sc: &ConcScenario, ctx: &mut Ctx) -> Result<bool, Violation> {
             }
             let got = seen.iter().find(|s| s.ev == ev);
             let Some(got) = got else {
-                check!(!must_exist, "report-missing-event", "{at}: event {ev} was built by the reporter (or a joined thread) but is missing");
+                check!(!must_exist, "report-missing-event", "{at}: event {ev} was built by the reporter or by a thread it joined / synchronised with, but is missing");
                 continue;
             };
             check!(may_exist, "report-phantom-event", "{at}: event {ev} listed before any thread started building it");
@@ -684,7 +684,7 @@ fn run(sc: &ConcScenario, ctx: &mut Ctx) -> Result<bool, Violation> {
                 check!(
                     g[i] >= lo[i],
                     "concurrent-report-undercount",
-                    "{at}: event {ev} {}: report says {} but the reporter's own and joined threads' published total is {}",
+                    "{at}: event {ev} {}: report says {} but what the reporter itself, the threads it joined and the threads it synchronised with had published before is {}",
                     counter_name(sum_ok[ev], i), g[i], lo[i]
                 );
                 if g[i] > lo[i] && g[i] < fin[i] {
